@@ -221,3 +221,31 @@ def failure_text_is_text(ctx, rule_id, consequence):
                        'failure (%s)' % (f.qualname, bad, consequence),
                        nontrivial=bad is not None)
     ctx.extra['exception_text_methods'] = n
+
+
+def helpers_of(prog, fi):
+    """The functions `fi` was split into: methods of its class called on
+    `self` and functions of its module called by name that did not exist when
+    the rules were written (transitively, callees first)."""
+    import ast
+    known = prog.known_funcs() or frozenset()
+    seen, order = {fi.qualname}, []
+
+    def visit(f):
+        for n in ast.walk(f.node):
+            if not isinstance(n, ast.Call):
+                continue
+            g = None
+            if isinstance(n.func, ast.Attribute) and \
+                    isinstance(n.func.value, ast.Name) and \
+                    n.func.value.id == 'self' and f.cls is not None:
+                g = prog.lookup_method(f.cls, n.func.attr)
+            elif isinstance(n.func, ast.Name):
+                g = f.module.funcs.get(n.func.id)
+            if g is not None and g.qualname not in known and \
+                    g.qualname not in seen and g.parent is None:
+                seen.add(g.qualname)
+                visit(g)
+                order.append(g)
+    visit(fi)
+    return order
